@@ -269,7 +269,9 @@ def run(res, f, tier):
             if drawn >= 2:
                 rest = True
             elif drawn == 1:
-                empt = [v_ for k_, v_ in conds.items() if "is_empty(" in k_ and SRC in k_]
+                # (emptiness of the *collection* of remaining lines; whether their joined text is empty is another question:
+                # one empty comment line is a description, the empty one)
+                empt = [v_ for k_, v_ in conds.items() if re.fullmatch(r"(?:Vec|\[[^\]]*\])::is_empty\((?:\w+::collect\()?%s\)?\)" % re.escape(SRC), k_)]
                 rest = (empt[0] == "val 0") if len(empt) == 1 else (False if not empt and conds.get("next(%s, #1)" % SRC) == "fails" else None)
                 if rest is None:
                     problems.append(("after the first comment line the path does not establish whether more follow", sorted(conds.items())[:6]))
